@@ -1,5 +1,5 @@
 SPECIFICATION TraceSpec
-INVARIANTS FwBound CqBound
+INVARIANTS FwBound CqBound RetryBound
 CONSTRAINT HWM
 POSTCONDITION Post
 CHECK_DEADLOCK FALSE
